@@ -204,6 +204,16 @@ def gen_cases(seed, tier):
         chain = [rnd.choice(UPDATES) for _ in range(rnd.randint(1, 8))]
         s = ''.join(rnd.choice(ALPHA) for _ in range(rnd.randint(1, 12)))
         cases.append(_case(bname, base, chain, s, rnd.random() < 0.5))
+    # environment calls under the escape character in force: one reader meets \\begin{e} under one state and
+    # @begin{e} under a state derived from it (own generator)
+    r5 = random.Random(seed * 7919 + 19)
+    alpha2 = ['\\begin{e}', '@begin{e}', '\\end{e}', '@end{e}', '\\', '@', 'a', ' ', '\\begin', '@end', '{e}']
+    esc = [u for u in UPDATES if 'macro_escape_char' in u]
+    for _ in range(300 if tier == 'quick' else 3000):
+        bname, base = r5.choice(BASES)
+        chain = [r5.choice(UPDATES + esc * 6) for _ in range(r5.randint(1, 4))]
+        s = ''.join(r5.choice(alpha2) for _ in range(r5.randint(1, 5)))
+        cases.append(_case(bname, base, chain, s, r5.random() < 0.5))
     # the delta stream draws from its own generator: the streams above are what they were
     cases += _gen_delta_cases(random.Random(seed * 7919 + 17), tier, strings)
     return cases
